@@ -33,3 +33,10 @@ Fixpoint files_after (s : store) (ops : list op) : store :=
 Definition is_write (o : op) : bool := match o with Write _ _ => true | Parse _ => false end.
 Fixpoint parses (ops : list op) : nat :=
   match ops with [] => O | Write _ _ :: r => parses r | Parse _ :: r => S (parses r) end.
+
+(* one result object: it is read (.result) and exported (as_csv()) any number of times *)
+Inductive use : Type := ReadResult | Export.
+
+(* the modelled export is a function of the parsed result and leaves it alone *)
+Definition answers {Res C : Type} (csv : Res -> C) (r : Res) (ops : list use) : list (Res + C) :=
+  map (fun o => match o with ReadResult => inl r | Export => inr (csv r) end) ops.
